@@ -242,22 +242,30 @@ def units():
     for name in ("multiply", "square"):
         u = ScenUnit("BigInt::%s (portable C++, every instance): exact product, word level" % name, P, (lambda tu, name=name: gen_bigmul(tu, name)), targets=[])
         u.back_end = "WORD"
+        u.stop_at_first_failure = True
+        u.max_paths = 300
         us.append(u)
     for fname in ("Fq", "Fr"):
         for op in ("multiply", "square", "montgomery_reduce"):
             u = ScenUnit("%s::%s: Montgomery identity T*R == A*B + U*p, T < 2p, result = reduce(T) (word level)" % (fname, op), P, (lambda tu, fname=fname, op=op: gen_mont(tu, fname, op)), targets=[], contracts_used=lower)
             u.back_end = "WORD"
             u.replay_hook = _replay
+            u.stop_at_first_failure = True
+            u.max_paths = 300
             us.append(u)
     P32 = ["C03", "C02"]
     for name in ("multiply", "square"):
         u = ScenUnit("BigInt::%s (portable C++ with 32-bit words, every instance): exact product, word level" % name, P32, (lambda tu, name=name: gen_bigmul(tu, name, 32)), targets=[])
         u.back_end = "WORD"
+        u.stop_at_first_failure = True
+        u.max_paths = 300
         us.append(u)
     for fname in ("Fq", "Fr"):
         for op in ("multiply", "square", "montgomery_reduce"):
             u = ScenUnit("%s::%s (32-bit words): Montgomery identity T*R == A*B + U*p, T < 2p, result = reduce(T) (word level)" % (fname, op), P32, (lambda tu, fname=fname, op=op: gen_mont(tu, fname, op, 32)), targets=[], contracts_used=lower)
             u.back_end = "WORD"
+            u.stop_at_first_failure = True
+            u.max_paths = 300
             us.append(u)
     u = ScenUnit("Montgomery constants (word level)", P, gen_consts, targets=[])
     u.back_end = "WORD"
